@@ -46,7 +46,7 @@ MANIFEST = {
 
 
 def plan(tier):
-    t = 240 if tier == "quick" else 1500
+    t = 240 if tier == "quick" else 900
     if tier == "quick":
         sp = [f"0:{r}" for r in range(3)]
         ap = [f"0:{m},1:{r}" for m in range(2) for r in range(3)]
